@@ -510,9 +510,9 @@ func ruleRawArg(w *World, r *Report, pkg *ssa.Package) {
 			okRaw := false
 			if ac, isC := arg.(*ssa.Call); isC {
 				if ac.Call.IsInvoke() {
-					okRaw = ac.Call.Method.Name() == "raw"
+					okRaw = methodIs(ac.Call.Method, "raw")
 				} else if af := staticCallee(ac); af != nil {
-					okRaw = af.Name() == "raw"
+					okRaw = w.fnIs(af, "raw")
 				}
 			}
 			r.Check(okRaw, rule, fmt.Sprintf("%s→%s", fnName(fn), sf.Name()), w.Pos(c.Pos()), "the value rendered is the output of raw()",
